@@ -112,7 +112,7 @@ func dumpDiff(a, b map[int]map[string]string) string {
 // deadlinesClose reports whether two dumps differ only by <= 1 ms in deadlines.
 func dumpsEqual(a, b map[int]map[string]string) bool { return dumpDiff(a, b) == "" }
 
-var c19Keys = []string{"a", "b", "c", "bin\x00\xff\r\n", "long" + strings.Repeat("k", 300), "e1", "e2"}
+var c19Keys = []string{"", "a", "b", "c", "bin\x00\xff\r\n", "long" + strings.Repeat("k", 300), "e1", "e2"}
 
 func c19RandomHistory(rng *rand.Rand, n int) [][]string {
 	var out [][]string
@@ -135,11 +135,11 @@ func c19RandomHistory(rng *rand.Rand, n int) [][]string {
 		case 8:
 			out = append(out, []string{"LPOP", k})
 		case 9, 10:
-			out = append(out, []string{"HSET", k, "f" + strconv.Itoa(rng.Intn(5)), pick(rng, []string{"1", "", "v\x00"})})
+			out = append(out, []string{"HSET", k, pick(rng, []string{"f" + strconv.Itoa(rng.Intn(5)), ""}), pick(rng, []string{"1", "", "v\x00"})})
 		case 11:
 			out = append(out, []string{"HDEL", k, "f" + strconv.Itoa(rng.Intn(5))})
 		case 12, 13:
-			out = append(out, []string{"SADD", k, "m" + strconv.Itoa(rng.Intn(6)), "\xffbin"})
+			out = append(out, []string{"SADD", k, "m" + strconv.Itoa(rng.Intn(6)), pick(rng, []string{"\xffbin", ""})})
 		case 14:
 			out = append(out, []string{"SREM", k, "m" + strconv.Itoa(rng.Intn(6))})
 		case 15:
